@@ -136,13 +136,13 @@ theorem copyRange_agree {r : Bytes} {len st en : Nat} (hlen : len < u64Mod)
             simp only [parseU64_digits hcond'.1 hf hfl, hcond2.1, if_false, parseU64_digits hcond2.1 hl hll]
           · simp [hb] at h
 
-/-- `upload_part_copy` comparable: part number within 1..10000 [else fs:part-number-not-validated], the upload exists for this
-    bucket and key [fs:unknown-upload-code, fs:upload-not-bound-to-key], source names agree (a missing source bucket is
+/-- `upload_part_copy` comparable: part number within 1..10000 [else fs:part-number-not-validated], the upload does not exist
+    (`NoSuchUpload` on both sides) or was created for this bucket and key [else fs:upload-not-bound-to-key], source names agree (a missing source bucket is
     inside since cc244fc: `NoSuchBucket` on both sides), the source is not a directory and its size fits `i64`; a
     `x-amz-copy-source-range`, if given, is one the store accepts: `bytes=first-last` inside the source
     [else fs:part-copy-range-unchecked] -/
 def UploadPartCopyOk (s : State) (b k : Bytes) (u : UploadRef) (n : Int) (sb sk : Bytes) (range : Option Bytes) : Prop :=
-  1 ≤ n ∧ n ≤ 10000 ∧ BoundUpload s u b k ∧ NameOk sb ∧ CanonKey sk ∧
+  1 ≤ n ∧ n ≤ 10000 ∧ UploadOk s u b k ∧ NameOk sb ∧ CanonKey sk ∧
   (bucketOk sb = true →
     match keyPath sk with
     | none => True
@@ -186,6 +186,12 @@ theorem uploadPartCopy_refines (H : Hashes) (dl : Nat) {s : State} (hi : Inv s) 
     Inv (step H dl s (.uploadPartCopy who b k u n sb sk range)).1 := by
   obtain ⟨h1, h2, hbound, hsname, ⟨_, hscanon⟩, hsrc⟩ := hg
   have hnr : ¬ (n < 1 ∨ n > 10000) := by omega
+  rcases hbound.cases with hbound | habs
+  case inr =>
+    have hup := habs.upload b k
+    cases u with
+    | none => simp [step, StoreSpec.step, hnr, hup, hi]
+    | some id => simp [step, StoreSpec.step, hnr, hup, habs.verify who, hi]
   obtain ⟨id, ui, rfl, hl, hb, hk, hup⟩ := hbound.spec
   by_cases hown : ui.owner = who
   · have hown' : ¬ (upOf s id ui).owner ≠ who := by simp [upOf, hown]
